@@ -128,7 +128,7 @@ def run(case):
             finally:
                 os.unlink(path)
         else:
-            quiet(sample, insts[op[1]], op[2])
+            quiet(sample, insts[op[1]], op[2], op[3] if len(op) > 3 else 1)
     before, covs = mem_state(made)
     rpt = quiet(vsc.get_coverage_report_model)
     txt = quiet(vsc.get_coverage_report, True)
